@@ -686,15 +686,15 @@ def _common_wiring(ctx, P: str):
     # behind each call compares the path with args.motion_filter[0] and the
     # rotation angle (rad) with args.motion_filter[1] taken as *degrees*
     import math
-    from ..lib import motion_filter_probe
+    from ..lib import motion_filter_probe, PROBE_DIST, PROBE_ANGLE_DEG
     probe = motion_filter_probe(
         prog, f, lambda e: (e.data.get("name") or "").endswith(
             "PosePath3D.motion_filter"),
         tm.sub(mfa, const(0)), tm.sub(mfa, const(1)))
     recvs = {e.data.get("recv") for e, _, _ in probe}
     bad = [(e, d, a) for e, d, a in probe if d is not None and a is not None
-           and not (abs(d - 1.0) < 1e-12 and
-                    abs(a - math.radians(1.0)) < 1e-12)]
+           and not (abs(d - PROBE_DIST) < 1e-12 and
+                    abs(a - math.radians(PROBE_ANGLE_DEG)) < 1e-12)]
     unknown = [e for e, d, a in probe if d is None or a is None]
     if unknown and not bad:
         ctx.undecidable(_R(P, 5), unknown[0], "motion filter: thresholds "
@@ -705,10 +705,10 @@ def _common_wiring(ctx, P: str):
         why = ""
         if bad:
             e_, d_, a_ = bad[0]
-            why = (f" — for `--motion_filter 1 1` the filter behind "
+            why = (f" — for `--motion_filter 2 3` the filter behind "
                    f"{fmt(e_.data.get('recv'))}.motion_filter compares the "
                    f"path with {d_:g} m and the angle with {a_:.6g} rad "
-                   f"(expected 1 m and {math.radians(1.0):.6g} rad = 1 deg)")
+                   f"(expected 2 m and {math.radians(PROBE_ANGLE_DEG):.6g} rad = 3 deg)")
         ctx.ob(_R(P, 5), bad[0][0] if bad else f, ok,
                "motion filter: both trajectories, distance in meters and "
                "the angle of --motion_filter converted from degrees exactly "
